@@ -944,7 +944,7 @@ def build_fn(ctx, unit, fs):
         it = arm["item"]
         fn_label = fs.opts.get("as") or ("arm_" + re.sub(r"\W+", "_", fs.opts["arm_state"] + "_" + fs.opts["arm_pat"]))
         it.name = fn_label
-        parent_impl = fs.opts.get("impl_as", parent_impl).replace("~", " ")
+        parent_impl = (fs.opts.get("impl_as") or parent_impl or "").replace("~", " ") or None
     if fs.opts.get("slice_loop"):
         # BLOCK SLICING: the body block of the N-th loop of a function becomes a synthetic function whose parameters are
         # the variables the block reads (declared in the unit: sparams=, sret=, stail=). What this drops: the loops around
@@ -966,7 +966,7 @@ def build_fn(ctx, unit, fs):
         it = fake
         fn_label = fs.opts.get("as") or f"{it.name}_loop{ordn}_body"
         it.name = fn_label
-        parent_impl = fs.opts.get("impl_as", parent_impl).replace("~", " ")
+        parent_impl = (fs.opts.get("impl_as") or parent_impl or "").replace("~", " ") or None
     tail_cut = None
     tail_cut2 = None
     if fs.opts.get("slice_tail"):
@@ -1028,6 +1028,23 @@ def build_fn(ctx, unit, fs):
             if 1 <= ordn_ <= len(pre_loops) and pre_loops[ordn_ - 1][4] == "for_each" and ls_.get("iter"):
                 ctx.foreach_iter[pre_loops[ordn_ - 1][0]] = ls_["iter"]
     edits = common_rewrites(ctx, sf, it.tok_lo, it.tok_hi, "fn", fs.opts)
+    if fs.opts.get("slice_loop"):
+        # BLOCK SLICE of a loop body: a `continue` of the sliced loop itself ends the body = `return <tail value>` of the synthetic function
+        # (automatic, so that a change which adds an early `continue` to the body stays inside the accepted subset). A `break` cannot be
+        # expressed (what follows the loop is not part of the slice): rustc rejects it and the unit is undecided.
+        spans = []
+        for l_ in find_loops(sf, it.body_open, it.body_close):
+            if l_[4] != "for_each":
+                j_ = l_[0] + 1
+                while toks[j_].text != "{":
+                    j_ = pair[j_] + 1 if toks[j_].text in ("(", "[") else j_ + 1
+                spans.append((j_, pair[j_]))
+        for t_ in range(it.body_open, it.body_close):
+            if toks[t_].kind == "id" and toks[t_].text == "continue" and not any(a_ < t_ < b_ for a_, b_ in spans) \
+                    and toks[t_ + 1].text == ";":
+                tl_ = fs.opts.get("stail", "").replace("~", " ")
+                edits.append(Edit(toks[t_].start, toks[t_].end, ("return " + tl_) if tl_ else "return"))
+                ctx.fire("SLICE-continue", sf, toks[t_].start, "continue of the sliced loop -> return")
     if tail_cut and fs.opts.get("outer_jumps"):
         # a `continue` / `break` of the slice that belongs to a loop AROUND the slice ends the slice: it becomes `return <value>`
         # (outer_jumps=Ok(())). What this drops: whether the outer loop continues or stops afterwards.
@@ -1357,7 +1374,16 @@ def site_rewrite(ctx, sf, it, rule, anchor, nth, ropts, what):
     lo = getattr(it, "slice_lo", lo)
     hi = getattr(it, "slice_hi", hi)
     try:
-        s, e = find_anchor(sf, lo, hi, anchor, nth, what)
+        m_ = re.match(r"@loop (\d+)$", anchor.strip())
+        if m_:
+            # ordinal anchor: the N-th loop of the function (or slice) - survives edits of the loop header
+            lps_ = [l_ for l_ in find_loops(sf, it.body_open, it.body_close) if lo <= toks[l_[0]].start < hi]
+            if int(m_.group(1)) > len(lps_):
+                raise LostAnchor(f"{what}: loop #{m_.group(1)} not found (function has {len(lps_)} loops)")
+            kw_ = lps_[int(m_.group(1)) - 1][0]
+            s, e = toks[kw_].start, toks[kw_].end
+        else:
+            s, e = find_anchor(sf, lo, hi, anchor, nth, what)
     except LostAnchor:
         if ropts.get("optional"):
             # a rewrite that only exists to get an unsupported *expression form* past Verus (e.g. `(a..=b).contains(&x)`):
@@ -1780,6 +1806,10 @@ def assemble(repo, unit_path, extra_header="", extra_items=None):
     # AUTO-CONST: constants of the source files that changed code refers to but the unit did not list (see run.py)
     for path_ in (extra_items or []):
         unit.entries.append(("item", ItemSpec(path_, {}, 0)))
+    # WEAK entries (`@fn ... | weak=1`, used by the accessor library _accessors.vc): a contract offered in case changed code starts to call
+    # the function; dropped when the unit itself puts the same function under contract
+    strong = {e[1].path for e in unit.entries if e[0] == "fn" and not e[1].opts.get("weak") and not e[1].opts.get("as")}
+    unit.entries = [e for e in unit.entries if not (e[0] == "fn" and e[1].opts.get("weak") and e[1].path in strong)]
     ctx = Ctx(repo)
     ctx.pathmap = [([t.text for t in lex(l)], r) for l, r in unit.pathmap]
     # N18: std integer conversions whose signature assume_specification cannot name are written as calls of the wrappers in
